@@ -196,6 +196,9 @@ def gen_scenarios(tier, seed, want_steps=False):
             rng, nprocs=rng.randint(1, 4 if tier == 'thorough' else 3),
             state_dependent=(i % 3 == 0),
             nsteps=(rng.randint(0, 4) if (want_steps or i % 4 == 0) else 0)))
+    # a path deleted and created again in one batch, also while the old process
+    # waits with a deferred timestep
+    out += er.recreate_scenarios()
     # degenerate composites: no process at all, and only quiet processes
     # (an engine cannot be built from empty dictionaries: the process-free
     #  composite holds one step)
@@ -666,6 +669,12 @@ def check(prop, tier, seed):
         if prop == 'C04':
             from vv import props_order
             props_order.permutation_check(rep, tier, seed, scratch)
+            # views after structural updates: what the director, an observer and
+            # the watcher step are shown must be the committed hierarchy
+            from vv import props_store
+            hs = props_store.histories(tier, seed)
+            hs = hs[-(420 if tier == 'quick' else 3000):]
+            props_store.validate(rep, 'C04', hs, scratch, label='store-views')
     return rep.finish()
 
 
